@@ -35,6 +35,7 @@ deriving Repr, Inhabited
 
 inductive Err where
   | attributeError | typeError | indexError | valueError
+  | parseError | queryError      -- raised by a text index (hypatia.text.parsetree), see `QueryModel.lean`
 deriving DecidableEq, Repr
 
 inductive IndexT where
